@@ -1255,12 +1255,14 @@ condexpr(struct scope *s)
 	expect(TCOLON, "in conditional expression");
 	r = condexpr(s);
 
+	if (!(e->type->prop & PROPSCALAR))
+		error(&tok.loc, "first operand of conditional operator must have scalar type");
 	lt = l->type;
 	rt = r->type;
-	if (lt == rt) {
-		t = lt;
-	} else if (lt->prop & PROPARITH && rt->prop & PROPARITH) {
+	if (lt->prop & PROPARITH && rt->prop & PROPARITH) {
 		t = commonreal(&l, &r);
+	} else if (lt == rt) {
+		t = lt;
 	} else if (lt == &typevoid && rt == &typevoid) {
 		t = &typevoid;
 	} else {
